@@ -94,6 +94,54 @@ def sensitivity(ids: list[str], props: list[str] | None = None, tier: str = "qui
     return 1 if bad else 0
 
 
+def seeded(ids: list[str], tier: str = "quick") -> int:
+    """Re-run the kept sub-agent changes (seeded/<id>/patch.diff) against the check of their property."""
+    sdir = os.path.join(kernel.VERIF, "seeded")
+    ids = ids or sorted(d for d in os.listdir(sdir) if os.path.exists(os.path.join(sdir, d, "patch.diff")))
+    bad = 0
+    for sid in ids:
+        with open(os.path.join(sdir, sid, "meta.json"), encoding="utf-8") as f:
+            meta = json.load(f)
+        scratch = scratch_copy()
+        try:
+            apply_patch(scratch, os.path.join(sdir, sid, "patch.diff"))
+            rc, out, wall = run_check(meta["property"], scratch, tier)
+            nviol = sum(1 for ln in out.splitlines() if ln.startswith("VIOLATION "))
+            first = next((ln for ln in out.splitlines() if ln.startswith("  key=")), "")
+            print(f"{sid} {meta['property']}: exit={rc} violations={nviol} wall={wall:.1f}s {first[:150]}")
+            if rc != 1 or not nviol:
+                bad += 1
+                print("  NOT CAUGHT; tail of output:\n    " + "\n    ".join(out.splitlines()[-6:]))
+            sys.stdout.flush()
+        finally:
+            shutil.rmtree(scratch, ignore_errors=True)
+    print(f"seeded: {len(ids)} changes, {bad} missed")
+    return 1 if bad else 0
+
+
+def benign(ids: list[str], props: list[str] | None = None, tier: str = "quick") -> int:
+    """Property-preserving changes: every check must stay quiet (exit 0, no VIOLATION line)."""
+    bdir = os.path.join(kernel.VERIF, "benign")
+    ids = ids or sorted(f[:-5] for f in os.listdir(bdir) if f.endswith(".diff"))
+    bad = 0
+    for bid in ids:
+        scratch = scratch_copy()
+        try:
+            apply_patch(scratch, os.path.join(bdir, f"{bid}.diff"))
+            for prop in props or ["C13", "C12", "C03", "C11", "C16"]:
+                rc, out, wall = run_check(prop, scratch, tier)
+                nviol = sum(1 for ln in out.splitlines() if ln.startswith("VIOLATION "))
+                print(f"{bid} {prop}: exit={rc} violations={nviol} wall={wall:.1f}s")
+                if rc != 0 or nviol:
+                    bad += 1
+                    print("  FALSE ALARM; tail of output:\n    " + "\n    ".join(out.splitlines()[-8:]))
+                sys.stdout.flush()
+        finally:
+            shutil.rmtree(scratch, ignore_errors=True)
+    print(f"benign: {bad} false alarms")
+    return 1 if bad else 0
+
+
 def determinism(props: list[str], n: int = 200) -> int:
     """Each engine: n runs executed twice in separate fresh interpreters (PYTHONHASHSEED=0 vs another,
     different VERIF_JOBS); per-run digests must be identical."""
@@ -133,6 +181,12 @@ def main(argv: list[str]) -> int:
         props = [a for a in rest if a.startswith("C")]
         ids = [a for a in rest if not a.startswith("-") and not a.startswith("C")]
         return sensitivity(ids, props or None, tier, suite)
+    if cmd == "seeded":
+        return seeded([a for a in rest if a.startswith("S-")])
+    if cmd == "benign":
+        props = [a for a in rest if a.startswith("C")]
+        ids = [a for a in rest if a.startswith("B")]
+        return benign(ids, props or None)
     if cmd == "determinism":
         n = 200
         if "-n" in rest:
